@@ -67,11 +67,13 @@ void operator delete[](void* p) noexcept { operator delete(p); }
 void operator delete(void* p, std::size_t) noexcept { operator delete(p); }
 void operator delete[](void* p, std::size_t) noexcept { operator delete(p); }
 
+static void sim_alloc_bt(void* p);    // debug aid, defined below
 static void* sim_gmp_alloc(size_t n) {
   if (fault_on_alloc()) throw std::bad_alloc();
   void* p = std::malloc(n ? n : 1);
   if (!p) throw std::bad_alloc();
   ++g_fault.live;
+  sim_alloc_bt(p);
   return p;
 }
 static void* sim_gmp_realloc(void* q, size_t, size_t n) {
@@ -79,9 +81,10 @@ static void* sim_gmp_realloc(void* q, size_t, size_t n) {
   void* p = std::realloc(q, n ? n : 1);
   if (!p) throw std::bad_alloc();
   if (!q) ++g_fault.live;
+  if (p != q) { static int on = -1; if (on < 0) on = getenv("VERIF_ALLOC_BT") ? 1 : 0; if (on) { if (q) dprintf(2, "GMPFREE %p\n", q); sim_alloc_bt(p); } }
   return p;
 }
-static void sim_gmp_free(void* p, size_t) { if (p) { --g_fault.live; std::free(p); } }
+static void sim_gmp_free(void* p, size_t) { if (p) { --g_fault.live; static int on = -1; if (on < 0) on = getenv("VERIF_ALLOC_BT") ? 1 : 0; if (on) dprintf(2, "GMPFREE %p\n", p); std::free(p); } }
 
 // The library's own default is empty and exists to be replaced (Init calls it).
 extern "C" void ppl_set_GMP_memory_allocation_functions() {
@@ -128,6 +131,17 @@ extern "C" void __cxa_throw(void* ex, void* tinfo, void (*dest)(void*)) {
   __builtin_unreachable();
 }
 
+// Debug aid (VERIF_ALLOC_BT=1): print the call stack of every first GMP allocation (with LSAN_OPTIONS=report_objects=1 the
+// leaked address can then be matched to the code that obtained it even though libgmp has no frame pointers).
+static void sim_alloc_bt(void* p) {
+  static int on = -1;
+  if (on < 0) on = getenv("VERIF_ALLOC_BT") ? 1 : 0;
+  if (!on) return;
+  bool was = g_fault.armed; g_fault.armed = false;
+  void* bt[16]; int n = backtrace(bt, 16); dprintf(2, "GMPALLOC %p\n", p); backtrace_symbols_fd(bt, n, 2);
+  g_fault.armed = was;
+}
+
 static inline int lsan_leaks() { return lsan_available() ? __lsan_do_recoverable_leak_check() : 0; }
 // Leak check whose report is parsed for the allocation site: the first stack frame that is not an allocator
 // (operator new, malloc, the GMP shim, std:: containers).  Returns the number reported by LSan (0: no leak).
@@ -164,7 +178,7 @@ static inline int lsan_leaks_site(std::string& site) {
         size_t par = fn.find('(');
         if (par != std::string::npos && par > 0) fn.resize(par);
         if (fn.find("operator new") != std::string::npos || fn.find("malloc") != std::string::npos || fn.find("sim_gmp") != std::string::npos
-            || fn.find("interceptor") != std::string::npos || fn.find("realloc") != std::string::npos || fn.find("allocator") != std::string::npos
+            || fn.find("interceptor") != std::string::npos || (fn.find("realloc") != std::string::npos && fn.compare(0, 5, "__gmp") != 0) || fn.find("allocator") != std::string::npos
             || fn.find("__gnu_cxx") != std::string::npos || fn.find("std::") == 0) continue;
         for (char& ch : fn) if (ch == ' ' || ch == '|') ch = '_';
         if (fn.size() > 80) fn.resize(80);
